@@ -52,11 +52,14 @@ class HistoryMachine(RuleBasedStateMachine):
     def extra_init(self):
         pass
 
+    def draw_universe(self, data, cfg):
+        return data.draw(vs.universe(3, 8, self.MAXKEY), label="universe")
+
     # -- plumbing
     @initialize(data=st.data())
     def init(self, data):
         cfg = data.draw(self.CFG, label="cfg")
-        self.U = data.draw(vs.universe(3, 8, self.MAXKEY), label="universe")
+        self.U = self.draw_universe(data, cfg)
         self.world = World(cfg, self.N)
         self.trace = {"cfg": cfg, "n": self.N, "U": list(self.U), "steps": []}
         self.extra_init()
